@@ -43,7 +43,7 @@ CHECKS = {
         "level": "model_checking",
         "technique": "TLA+ transcription of the NFA combinators (in-place epsilon edges, renumbering), closure and subset run model-checked against regular-expression semantics for all expressions up to an operator bound; same expressions replayed through the public NFA API and judged by TLC",
         "text": "TLC checks, one state per expression, that the code-shaped construction accepts exactly the language of every expression with <= 3 (thorough 4) operators over two symbols on every string of length <= 4 (5), that tags after a string are exactly the matching alternatives of every tagged pair, and that terminal states admit no matching extension. Every one of these expressions is then built through the real NFA API under three byte mappings (incl. 0x00 and 0xFF), compiled, and walked; TLC judges accept/tags/terminal per string and that all 256 bytes are answered with a dead transition outside the alphabet.",
-        "note": "Single-byte literals only; byte classes and the production grammars are covered indirectly via C03/C04. Terminal is judged in the sound direction only.",
+        "note": "The n-ary combinators are exercised along three construction routes per expression (binary calls; every operand wrapped in a one-alternative choice; nested seq/alt flattened into one n-ary call with one-element sequence wrappers). Single-byte literals only; byte classes and the production grammars are covered indirectly via C03/C04. Terminal is judged in the sound direction only.",
     },
     "C16": {
         "level": "model_checking",
@@ -67,13 +67,13 @@ CHECKS = {
         "level": "exploration",
         "technique": "TLA+ matrix-of-parent-positions specification of views (reusing the slice spec); TLC-generated view programs replayed over four ownership routes; TLC judge incl. iter_mut addresses as parent offsets",
         "text": "TLC generates thousands of view programs (8 parent shapes incl. zero extents; chains of up to three view/transpose steps; every selector form with bounds beyond the axis; single steps exhaustive over the sampled selector set). Each is executed through the real trait methods on an owned nested view, a shared reference, a mutable reference and as_mut(), and TLC judges size, row-major iteration, get at every position incl. one past each edge, the parent after fill / clear / fill_with / insert (six insertion points incl. beyond the window) / set, map, and that iter_mut hands out exactly the window cells' addresses, each once (addresses logged as parent offsets).",
-        "note": "UB-freedom of the unsafe iterator proper is Miri's domain, not decided here; only its observable contract is.",
+        "note": "Selector bounds of extreme magnitude (ViewBounds!PosInf / NegInf) are instantiated by the harness with u64::MAX, usize::MAX, 2^63, i64::MAX and i64::MIN. UB-freedom of the unsafe iterator proper is Miri's domain, not decided here; only its observable contract is.",
     },
     "C17": {
         "level": "model_checking",
         "technique": "TLA+ select-loop model (waker self-pipe, signal pipe, write queue, kernel buffers, peer) model-checked for safety and liveness; real terminal object on a pseudo-terminal instrumented with verif-hooks, every session's totally ordered event trace validated by a TLC trace spec",
         "text": "TLC checks the code-shaped poll loop against its environment (concurrent waker calls, SIGWINCH, peer input/drain, short writes, timeouts of every kind): a completed wake is always in the pipe until read, a pipe read queues exactly one Wake, inputs are conserved, and under fairness of the polling thread a pending wake is read while polls remain. The model is bound to the code by trace validation: seeded sessions of the real UnixTerminal on a pty (wake threads, SIGWINCH, typed keys, frames up to 300 kB with slow peers, frame drops, polls with zero/finite/no timeout, release after normal use / quit / double quit / pending output) log hook events and harness events under one atomic sequence; PollTrace requires every event to be a step of the specification - event queue FIFO incl. while output is pending, every wake followed by a waker read and a delivered Wake, SIGWINCH -> Resize, term signal -> Quit, line settings restored and equal to those at open, closing sequence seen by the peer.",
-        "note": "Interleavings are exhaustive in the model only; pty sessions sample the kernel's schedules. Real time is not modelled (finite timeouts and a bounded quiescence loop stand for 'bounded time').",
+        "note": "Session scenarios: normal, big (large frames, partial writes), quit / quit2 (one or two termination signals), pending (release with queued output), burst (2..1025 wake requests between two polls, incl. multiples of 64 and 1024). Interleavings are exhaustive in the model only; pty sessions sample the kernel's schedules. Real time is not modelled (finite timeouts and a bounded quiescence loop stand for 'bounded time').",
     },
     "C20": {
         "level": "exploration",
@@ -96,19 +96,19 @@ CHECKS = {
     "C04": {
         "level": "exploration",
         "technique": "TLA+ protocol printer (TtyProtocol.tla) generates byte strings together with the abstract events they denote for every report/key family and their concatenations; the real event decoder's output is projected onto the same abstract records and compared by TLC",
-        "text": "The printer spec writes out the naming tables (legacy CSI ~ codes with and without modifiers, CSI/SS3 letters, C0 and ESC-prefixed keys, kitty key codes incl. F13-F35 and modifier masks, all 256 SGR mouse button codes, DEC modes and statuses) and encodes CPR, size pairs, DECRPM, DA1, OSC 4/10/11 colours in #rrggbb and rgb:h/h/h with 1-4 digits and both terminators, XTGETTCAP, DECRPSS, kitty graphics responses, bracketed paste, SGR in ';' and ':' forms with several colours and mid-sequence resets, UTF-8 scalars at every length boundary, ambiguous ESC-prefixed keys followed by text that keeps a longer candidate alive, all ordered pairs of family representatives with and without text between them, and triples ending in ambiguous keys (about 4 400 vectors). Each is decoded whole, byte-wise and in 3-byte reads; TLC requires the projected events to equal the encoded ones.",
+        "text": "The printer spec writes out the naming tables (legacy CSI ~ codes with and without modifiers, CSI/SS3 letters, C0 and ESC-prefixed keys, kitty key codes incl. F13-F35 and modifier masks, all 256 SGR mouse button codes, DEC modes and statuses) and encodes CPR, size pairs, DECRPM, DA1, OSC 4/10/11 colours in #rrggbb and rgb:h/h/h with 1-4 digits and both terminators, XTGETTCAP in lower- and upper-case hex with every hex letter in either nibble, DECRPSS, kitty graphics responses, bracketed paste, SGR in ';' and ':' forms with several colours and mid-sequence resets, UTF-8 scalars at every length boundary, ambiguous ESC-prefixed keys followed by text that keeps a longer candidate alive, all ordered pairs of family representatives with and without text between them, and triples ending in ambiguous keys (about 4 400 vectors). Each is decoded whole, byte-wise and in 3-byte reads; TLC requires the projected events to equal the encoded ones.",
         "note": "Bounded generation from the printer's value sets (coordinates {1,2,9,10,99,100,255,256,65535}); naming follows the library's documented table where terminals differ.",
     },
     "C11": {
         "level": "translation_validation",
         "technique": "raw bytes of the real kitty handler parsed by the TLA+ VT parser and executed on a TLA+ kitty-graphics terminal machine (KittyTerm) with closed-form base64; abstract handler x terminal model checked by TLC",
-        "text": "TLC checks the abstract handler (transmit-if-absent cache, position-derived placement ids, erase by id pair, eviction on error) against the terminal store over all histories of 5 draw/erase/error events on 2 images and 3 positions incl. the origin. Real histories (image pool: 1x1, empty, cropped/strided/transposed views, payloads of one, exactly one, exactly two and three 4096-byte chunks; positions incl. (0,0) and the 65535 corners; error responses with and without placement id) are judged command by command: chunk sizes and continuation flags, f/s/v/i keys, decoded payload = the image's RGBA pixels in row-major order, no retransmission while the terminal holds the image, every put refers to a held image, and the placements the terminal holds equal those drawn and not erased.",
+        "text": "TLC checks the abstract handler (transmit-if-absent cache, position-derived placement ids, erase by id pair, eviction on error) against the terminal store over all histories of 5 draw/erase/error events on 2 images and 3 positions incl. the origin. Real histories (image pool, incl. equal content in separate allocations - histories speak about images by content as the terminal does: 1x1, empty, cropped/strided/transposed views, payloads of one, exactly one, exactly two and three 4096-byte chunks; positions incl. (0,0) and the 65535 corners; error responses with and without placement id) are judged command by command: chunk sizes and continuation flags, f/s/v/i keys, decoded payload = the image's RGBA pixels in row-major order, no retransmission while the terminal holds the image, every put refers to a held image, and the placements the terminal holds equal those drawn and not erased.",
         "note": "Known finding: the two bottom-right corner positions share a placement id (pigeonhole on 32-bit ids).",
     },
     "C12": {
         "level": "translation_validation",
         "technique": "raw sixel bytes of the real handler interpreted by a TLA+ reference sixel machine (raster, registers, repeat, band/CR) and compared with the source pixels",
-        "text": "Images (1..24 x 6..20 and wide ones up to 710 columns with long runs; 1..1000 colours distinct at sixel's 0-100 resolution incl. exactly 255/256/257; transparent pixels over a configured background; two equal-size crops of one parent plus the parent on one handler; every image drawn twice) go through the real SixelImageHandler. TLC runs the reference interpreter over the bytes and requires one well-formed sequence, declared size (width, 6*floor(h/6)), every raster pixel painted and none outside, every used register defined with channels <= 100, pixel-for-pixel equality with the source at 0-100 resolution when it has <= 256 distinct colours, and identical bytes for the repeated draw.",
+        "text": "Images (1..24 x 6..20 and wide ones up to 710 columns with long runs; 1..1000 colours distinct at sixel's 0-100 resolution incl. exactly 255/256/257; transparent pixels over a configured background; two equal-size rectangular crops and two full-width row crops of one parent plus the parent on one handler; every image drawn twice) go through the real SixelImageHandler. TLC runs the reference interpreter over the bytes and requires one well-formed sequence, declared size (width, 6*floor(h/6)), every raster pixel painted and none outside, every used register defined with channels <= 100, pixel-for-pixel equality with the source at 0-100 resolution when it has <= 256 distinct colours, and identical bytes for the repeated draw.",
         "note": "Colour fidelity beyond 256 colours is C13's subject; only alpha 0/255 generated.",
     },
     "C13": {
